@@ -604,10 +604,35 @@ def rule_pure_forwarding(check, rule):
                         witness='Combination(Combination(f, g), h) calls f, g, h in that order')
 
 
-def rule_descriptor_rebinding(check, rule, classes=None):
+def _via_own_helper(repo, ci, a, inst, owner):
+    """safe_get(self.<helper>(...), instance, owner) where <helper> is a method of the same class that returns
+    self.__wrapped__ (possibly after normalising and storing it back) on every path"""
+    if not (a[0] == 'C' and a[1] == '_util:safe_get' and len(a[2]) == 3 and a[2][1] == inst and a[2][2] == owner):
+        return False
+    h = a[2][0]
+    if not (h[0] == 'C' and isinstance(h[1], str) and h[1].startswith(ci.key + '.')):
+        return False
+    m = ci.methods.get(h[1].split('.')[-1])
+    if m is None:
+        return False
+    it = Interp(repo, Policy(try_forks=False))
+    hs = ('P', m.params()[0][0])
+    ok = False
+    for p in it.run(m):
+        if p.status != 'return':
+            continue
+        stored = [e.args[0] for e in p.effects if e.kind == 'store_attr' and e.target == hs and e.op == '__wrapped__']
+        if p.value == ('A', hs, '__wrapped__') or p.value in stored:
+            ok = True
+        else:
+            return False
+    return ok
+
+
+def rule_descriptor_rebinding(check, rule, classes=None, only_safe_get=False):
     """C13.R2: __get__ rebuilds an instance of the same type from the same stored parts and the re-bound wrapped object"""
     repo = check.repo
-    for ck in (classes or WRAPPER_CLASSES):
+    for ck in ([] if only_safe_get else (classes or WRAPPER_CLASSES)):
         ci = repo.cls(ck)
         get = ci.methods.get('__get__')
         init = ci.methods.get('__init__')
@@ -617,7 +642,8 @@ def rule_descriptor_rebinding(check, rule, classes=None):
         check.analysed(get)
         stores = _init_stores(init)
         ipos = init.params()[0][1:]
-        it = Interp(repo, Policy(try_forks=False))
+        # helper methods of the same class are inlined, so that a refactoring which extracts part of __get__ is still read
+        it = Interp(repo, Policy(inline=lambda f_, d_, n_, _ci=ci: f_.cls is _ci and f_.name != '__init__', try_forks=False))
         paths = it.run(get)
         check.absorb(it)
         gpos = get.params()[0]
@@ -648,7 +674,7 @@ def rule_descriptor_rebinding(check, rule, classes=None):
                     # the wrapped object may have been normalised and stored back on this path
                     stored_back = [e.args[0] for e in p.effects if e.kind == 'store_attr' and e.target == selft and e.op == '__wrapped__']
                     alt = [('C', '_util:safe_get', (x, inst, owner), ()) for x in stored_back if mentions(x, ('A', selft, '__wrapped__'))]
-                    if a != want and a not in alt:
+                    if a != want and a not in alt and not _via_own_helper(repo, ci, a, inst, owner):
                         problems.append('constructor argument %r is %s, expected safe_get(self.__wrapped__, instance, owner)' % (pname, show(a)[:60]))
                 elif attr is None:
                     problems.append('constructor parameter %r is not stored by __init__' % pname)
